@@ -54,6 +54,17 @@ class VNone(V):
         return "VNone"
 
 
+class VOpt(V):
+    """Optional number: None when `isnone`, else the number `inner` (a local that is None on some paths and a number on others)"""
+
+    def __init__(self, isnone, inner):
+        self.isnone = isnone
+        self.inner = inner
+
+    def __repr__(self):
+        return "VOpt(%s, %r)" % (self.isnone, self.inner)
+
+
 class VStr(V):
     def __init__(self, s):
         self.s = s
